@@ -164,7 +164,8 @@ def one(ctx, schema, doc, src, variables, value_fn, seed, p_async, policy, early
     case = {**base_case, "schedule_seed": seed, "p_async": p_async, "policy": policy, "early": early, "stop": repr(stop), "with_signal": with_signal}
     run, sched, hz, obs = run_incremental(schema, doc, variables, value_fn, seed, p_async=p_async, policy=policy, early=early, stop=stop,
                                           with_signal=with_signal, p_iter=0.9 if base_case["seed"] % 11 == 6 else 0.35,
-                                          source_burst=[1, 1, 1, 3, 8][seed % 5], tof=base_case.get("tof", False))
+                                          source_burst=[1, 1, 1, 3, 8][seed % 5], tof=base_case.get("tof", False), p_double=[0.0, 0.0, 0.35, 0.7][((seed * 2654435761) >> 7) % 4],
+                                          p_task=[0.0, 0.25, 0.6][((seed * 40503) >> 5) % 3])
     try:
         ctx.case()
         if stop is None:
@@ -176,7 +177,7 @@ def one(ctx, schema, doc, src, variables, value_fn, seed, p_async, policy, early
             ctx.count("stopped_runs")
             ctx.count({'aclose': "aclose_stops", 'abort': "abort_stops", 'cancel-pull': "cancel_pull_stops"}[stop[0]])
             if len(stop) > 2:
-                ctx.count("aborted_before_the_execution_started")
+                ctx.count("aborted_before_the_execution_started" if stop[2] == 'before' else "aborted_from_inside_a_resolver")
         verdicts(ctx, run, sched, hz, obs, stop, early, src, case)
         return obs
     finally:
@@ -221,6 +222,12 @@ def check_request(ctx, seed, k):
         if rng.random() < 0.4:
             # the signal is already aborted when the execution is started
             one(ctx, schema, doc, src, variables, value_fn, s0, p_async, policy, early, ('abort', rng.choice([Reason('early'), 'plain', None]), 'before'), True, base_case)
+        if obs is not None and rng.random() < 0.5:
+            # a resolver triggers the abort itself, in the middle of a synchronous pass
+            ncalls = max(1, len([1 for ev in obs.resolver_log if ev[0] == 'invoke']))
+            for j in range(2):
+                one(ctx, schema, doc, src, variables, value_fn, s0 + 40 + j, p_async, policy, early,
+                    ('abort', rng.choice([Reason('inside'), 'plain', None]), 'in-resolver', rng.randint(1, ncalls)), True, base_case)
         if obs is None or obs.kind != 'incremental':
             if obs is not None and obs.kind == 'single' and rng.random() < 0.5:
                 one(ctx, schema, doc, src, variables, value_fn, s0, p_async, policy, early, ('abort', Reason('stop')), True, base_case)
